@@ -1,4 +1,5 @@
 import Driver.Codec
+import Driver.Topics
 
 open Driver
 
@@ -18,6 +19,10 @@ def main (args : List String) : IO UInt32 := do
   | ["codec"] =>
     let (n, k) ← loop stdin stdout codecLine 0 0
     stdout.putStrLn s!"SUMMARY codec lines={n} reports={k}"
+    return 0
+  | ["topics"] =>
+    let (n, k) ← loop stdin stdout topicsLine 0 0
+    stdout.putStrLn s!"SUMMARY topics lines={n} reports={k}"
     return 0
   | _ =>
     IO.eprintln "usage: bisq <suite>"
